@@ -418,7 +418,8 @@ func genGatewayWorld(seed uint64, tier string, xns bool) *RunConfig {
 			// a TCP service of the Ingress kind on a port TCPRoutes use: the route, which a full sync configures
 			// first, keeps the port whatever the history
 			ann[annPrefix+"tcp-service-port"] = g.of("7100", "7101", "7102")
-			rules = []ruleSpec{{Host: "", Paths: []pathSpec{{Path: "/", Svc: "s1", Port: "80"}}}}
+			// (the default host of the port, which a TCPRoute also is, or an SNI hostname next to it)
+			rules = []ruleSpec{{Host: g.of("", "", "sni.local"), Paths: []pathSpec{{Path: "/", Svc: "s1", Port: "80"}}}}
 		}
 		return g.gen(mkIngress(ns, "companion", 1, ann, nil, rules, nil, nil))
 	}
@@ -868,8 +869,15 @@ func (r *Run) checkGateway() {
 			var port int
 			fmt.Sscanf(s.Name[strings.LastIndexByte(s.Name, '_')+1:], "%d", &port)
 			target := ""
+			// (with SNI hostnames on the port the default host, which a TCPRoute is, is the default_backend and the
+			// hostnames are looked up in a map first)
 			for _, l := range s.Lines {
-				if (l.Tok[0] == "default_backend" || l.Tok[0] == "use_backend") && len(l.Tok) > 1 && target == "" {
+				if l.Tok[0] == "default_backend" && len(l.Tok) > 1 {
+					target = l.Tok[1]
+				}
+			}
+			for _, l := range s.Lines {
+				if l.Tok[0] == "use_backend" && len(l.Tok) > 1 && target == "" && !strings.HasPrefix(l.Tok[1], "%[") {
 					target = l.Tok[1]
 				}
 			}
